@@ -10,7 +10,7 @@ cp=$W/verif-$id$WAVE_APPEND; wt=/tmp/wave-wt-$id$WAVE_APPEND
 rm -rf $cp; mkdir -p $cp; (cd $V && git ls-files -z | xargs -0 cp --parents -t $cp) ; cp -r $V/lean/.lake $cp/lean/.lake
 git -C /repo worktree remove --force $wt >/dev/null 2>&1; rm -rf $wt
 git -C /repo worktree add -q --detach $wt HEAD
-if git -C $wt apply $V/seeded/$id/patch.diff; then
+if git -C $wt apply $V/seeded/$id/patch.diff 2>/dev/null || git -C $wt apply --3way $V/seeded/$id/patch.diff; then
   for c in $prop $extra; do
     s=$(date +%s)
     out=$(cd $cp && NEVER_REPO=$wt NEVER_VERIF_CACHE=$W/cache-$id$WAVE_APPEND timeout 2400 python3 checks/check.py $c --tier quick 2>&1 | grep -v "^KNOWN")
